@@ -278,7 +278,10 @@ def process_state(hostile):
     warnings.simplefilter("ignore")
     if hostile:
         np.seterr(divide="raise", over="raise", invalid="raise", under="ignore")  # (underflow of denormal inputs is not an error anywhere)
-        warnings.filterwarnings("error", category=RuntimeWarning)
+        # `python -W error` (a test suite's setting): every warning is an exception, except the deprecation notices the library issues on purpose
+        warnings.simplefilter("error")
+        warnings.filterwarnings("ignore", category=DeprecationWarning)
+        warnings.filterwarnings("ignore", category=PendingDeprecationWarning)
         decimal.getcontext().prec = 3
         # an application (a notebook) that has set numpy's print options: arrays longer than 5 items are summarised, explicit signs, short lines
         np.set_printoptions(threshold=5, edgeitems=1, linewidth=20, sign="+", precision=2, floatmode="fixed", suppress=True)
@@ -668,7 +671,7 @@ def build_evidence(mod, per_leg, tier, seed, wall, nviol, known_info):
         "exhaustive_legs": [l.name for l in mod.LEGS if l.exhaustive],
         "legs": legs,
         "known_findings": known_info,
-        "process_state": "about half of the cases (pseudo-randomly) run with numpy trapping divide/overflow/invalid, RuntimeWarning as an error, a 3-digit decimal context and non-default numpy print options (threshold 5, explicit signs); the others with the defaults",
+        "process_state": "about half of the cases (pseudo-randomly) run with numpy trapping divide/overflow/invalid, every warning except deprecation notices as an error, a 3-digit decimal context and non-default numpy print options (threshold 5, explicit signs); the others with the defaults",
         "tree": SRC,
     }
     extra = getattr(mod, "EXTRA_COVERAGE", None)
@@ -711,7 +714,7 @@ def run_replay(modname, path):
     for hostile in (False, True):  # a stored case is replayed under both ambient process states
         problem = _run_pinned(leg, body["case"], hostile)
         if problem is not None:
-            problem = "[process state: %s] %s" % ("numpy traps / RuntimeWarning=error / decimal prec 3 / numpy print options" if hostile else "defaults", problem)
+            problem = "[process state: %s] %s" % ("numpy traps / warnings=error / decimal prec 3 / numpy print options" if hostile else "defaults", problem)
             break
     process_state(False)
     rc = body.get("recipe")
